@@ -249,7 +249,7 @@ def gen_case(r, idx, profile):
             name = r.choice(list(g.reg))
             tit, tid = 0, g.reg[name]
         elif v < 0.6:
-            tit, tid = 2, r.choice([0x6162, 0x7a7a, 0x2b61, 0x0000])
+            tit, tid = 2, r.choice([0x6162, 0x7a7a, 0x2b61, 0x0000, 0xc3a9, 0x80ff, 0xffff, 0x6100])
         elif v < 0.75:
             tit, tid = 1, r.choice([1, 2, 3, 4, 300, 9])
         elif v < 0.8:
@@ -326,7 +326,7 @@ def gen_case(r, idx, profile):
         if v < 0.3 and g.reg:
             name = r.choice(list(g.reg))
         elif v < 0.45:
-            name = r.choice([b'ab', b'zz', b'+a'])
+            name = r.choice([b'ab', b'zz', b'+a', b'\xc3\xa9', b'\xff\x80'])
         elif v < 0.6 and visible:
             name = r.choice(list(visible.values()))
         else:
